@@ -1147,3 +1147,131 @@ pub proof fn lemma_no_confusion(
     lemma_roundtrip(p1, h1, t1, c1);
     lemma_roundtrip(p2, h2, t2, c2);
 }
+
+// ============================ part 4: the printing side (hash_one_input, write_hex_output) =========
+
+// ---- hex output of the XOF stream (write_hex_output) ----
+pub proof fn lemma_hex_encode_ascii(b: Seq<u8>)
+    ensures
+        sp_all_ascii(sp_hex_encode(b)),
+        sp_hex_encode(b).len() == 2 * b.len(),
+        sp_blen(sp_hex_encode(b)) == 2 * b.len(),
+{
+    let e = sp_hex_encode(b);
+    assert forall|i: int| 0 <= i < e.len() implies (#[trigger] e[i] as u32) < 128 by {
+        let v = b[i / 2] as int;
+        lemma_hex_digit(v / 16);
+        lemma_hex_digit(v % 16);
+    }
+    lemma_blen_ascii(e);
+}
+
+pub proof fn lemma_hex_encode_concat(a: Seq<u8>, b: Seq<u8>)
+    ensures
+        sp_hex_encode(a + b) == sp_hex_encode(a) + sp_hex_encode(b),
+{
+    let l = sp_hex_encode(a + b);
+    let r = sp_hex_encode(a) + sp_hex_encode(b);
+    assert(l.len() == r.len());
+    assert forall|i: int| 0 <= i < l.len() implies l[i] == r[i] by {
+        if i < 2 * a.len() {
+            assert((a + b)[i / 2] == a[i / 2]);
+        } else {
+            let k = i - 2 * a.len();
+            assert(i / 2 == a.len() + k / 2 && i % 2 == k % 2);
+            assert((a + b)[i / 2] == b[k / 2]);
+        }
+    }
+    assert(l =~= r);
+}
+
+pub proof fn lemma_hex_encode_take(b: Seq<u8>, t: int)
+    requires
+        0 <= t <= b.len(),
+    ensures
+        sp_hex_encode(b).take(2 * t) == sp_hex_encode(b.take(t)),
+{
+    assert(b =~= b.take(t) + b.skip(t));
+    lemma_hex_encode_concat(b.take(t), b.skip(t));
+    assert(sp_hex_encode(b).take(2 * t) =~= sp_hex_encode(b.take(t)));
+}
+
+pub proof fn lemma_xof_bytes_split(id: int, from: int, a: int, b: int)
+    requires
+        0 <= a,
+        0 <= b,
+    ensures
+        sp_xof_bytes(id, from, a) + sp_xof_bytes(id, from + a, b) == sp_xof_bytes(id, from, a + b),
+        sp_xof_bytes(id, from, a + b).take(a) == sp_xof_bytes(id, from, a),
+{
+    assert(sp_xof_bytes(id, from, a) + sp_xof_bytes(id, from + a, b) =~= sp_xof_bytes(id, from, a + b));
+    assert(sp_xof_bytes(id, from, a + b).take(a) =~= sp_xof_bytes(id, from, a));
+}
+
+// one iteration of write_hex_output: the first 2*t BYTES of the hex string of a 64-byte block are a char
+// prefix (the string is ASCII), namely the hex of the block's first t bytes
+pub proof fn lemma_hex_prefix(block: Seq<u8>, t: int)
+    requires
+        0 <= t <= block.len(),
+    ensures
+        ({
+            let e = sp_hex_encode(block);
+            &&& is_char_boundary(encode_utf8(e), 0)
+            &&& is_char_boundary(encode_utf8(e), 2 * t)
+            &&& 2 * t <= encode_utf8(e).len()
+            &&& encode_utf8(e).subrange(0, 2 * t) == encode_utf8(sp_hex_encode(block.take(t)))
+        }),
+{
+    let e = sp_hex_encode(block);
+    let a = e.take(2 * t);
+    let b = e.skip(2 * t);
+    lemma_hex_encode_ascii(block);
+    lemma_hex_encode_take(block, t);
+    lemma_hex_encode_ascii(block.take(t));
+    assert(e =~= a + b);
+    lemma_str_split(a, b);
+}
+
+pub proof fn lemma_print_literals()
+    ensures
+        "\n"@ == sp_eol(false),
+        ""@ == Seq::<char>::empty(),
+{
+    reveal_strlit("\n");
+    reveal_strlit("");
+    assert("\n"@ =~= sp_eol(false));
+    assert(""@ =~= Seq::<char>::empty());
+}
+
+// what hash_one_input wrote, piece by piece, is sp_line (Seq associativity only)
+pub proof fn lemma_line_assembly(out0: Seq<char>, p: Seq<char>, h: Seq<u8>, tag: bool, out: Seq<char>)
+    requires
+        ({
+            let m = if sp_needs_escape(p) { out0 + seq!['\\'] } else { out0 };
+            let f = sp_file_field(p);
+            let x = sp_hex_encode(h);
+            if tag {
+                out == m + sp_tag_prefix() + f + sp_tag_sep() + x + sp_eol(false)
+            } else {
+                out == m + x + sp_sep() + f + sp_eol(false)
+            }
+        }),
+    ensures
+        out == out0 + sp_line(p, h, tag, false),
+{
+    assert(out =~= out0 + sp_line(p, h, tag, false));
+}
+
+// C13 at the printing function: `out` is `out0` followed by exactly the line of the format for (path, hash, form),
+// LF terminated; and for a default-length hash and a checkable path that line parses back to the same path and hash
+pub open spec fn sp_prints_line(out0: Seq<char>, out: Seq<char>, p: Seq<char>, h: Seq<u8>, tag: bool) -> bool {
+    &&& out == out0 + sp_line(p, h, tag, false)
+    &&& (h.len() == 32 && sp_path_ok(p) ==> sp_parse(sp_line(p, h, tag, false)) == Some(
+        SpParsed { hash: h, path: p, file_string: sp_file_field(p), is_escaped: sp_needs_escape(p) },
+    ))
+}
+
+// --no-names: only the hex digits and the terminator
+pub open spec fn sp_prints_hash_only(out0: Seq<char>, out: Seq<char>, h: Seq<u8>) -> bool {
+    out == out0 + sp_hex_encode(h) + sp_eol(false)
+}
